@@ -77,7 +77,9 @@ CallStep(m, c, E) ==
                       !.prevW = IF s = "m" THEN c.id ELSE @, !.nW = IF s = "m" THEN @ + 1 ELSE @,
                       !.cLast = IF s = "c" THEN c.id ELSE @, !.cN = IF s = "c" THEN @ + 1 ELSE @,
                       !.sLast = IF s = "s" THEN c.id ELSE @, !.sN = IF s = "s" THEN @ + 1 ELSE @,
-                      !.taint[s] = @ \/ ~c.ok]
+                      \* a failed pre-trigger write aborts the recording (C12's domain); a failed write of the current frame
+                      \* or a failed stop changes nothing about when recordings start and end
+                      !.taint[s] = @ \/ (~c.ok /\ (s # "m" \/ c.id < m.acc))]
     [] c.op = "stop" ->
          LET wasOpen == m.open[s] IN
          [m EXCEPT !.v = @ \cup If(s = "c" /\ wasOpen /\ ~m.taint["c"] /\ E.ev = "frame"
@@ -85,7 +87,7 @@ CallStep(m, c, E) ==
                            \cup If(s = "s" /\ wasOpen /\ ~m.taint["s"] /\ m.sN # m.cfg.SnapLen + 1,
                                    "C17:test-length"),
                    !.accStop = IF s = "m" /\ wasOpen THEN m.acc ELSE @,
-                   !.taint[s] = @ \/ ~c.ok,
+                   !.taint[s] = @ \/ (~c.ok /\ s # "m"),
                    !.open[s] = FALSE]
 
 RECURSIVE FoldCalls(_, _, _)
@@ -106,8 +108,8 @@ FramePost(m0, b0, E) ==       \* m0: observer state before the event, b0: after 
       cs     == E.calls
       mOpen0 == m0.open["m"]
       win    == WinOf(cfg, E.now)
-      clean  == /\ ~m0.taint["m"]                 \* no failed write/stop on the motion sink
-                /\ \A i \in DOMAIN cs : (cs[i].s = "m" /\ cs[i].op # "start") => cs[i].ok
+      clean  == /\ ~m0.taint["m"]                 \* no failed pre-trigger write on the motion sink
+                /\ \A i \in DOMAIN cs : (cs[i].s = "m" /\ cs[i].op = "w" /\ cs[i].id < t) => cs[i].ok
       starts == SelCalls(cs, "m", "start")
       hasStart == starts # <<>>
       startOk  == hasStart /\ starts[1].ok
@@ -140,6 +142,7 @@ FramePost(m0, b0, E) ==       \* m0: observer state before the event, b0: after 
                 ELSE IF mOpen0 THEN "C04:start-while-recording"
                 ELSE "C04:start-before-trigger-frames")
         \cup If(Len(starts) > 1, "C04:two-starts-in-one-frame")
+        \cup If(~clean /\ hasStart /\ mOpen0, "C04:start-while-recording")      \* whatever failed before
         \cup If(clean /\ ~mOpen0 /\ ~startOk /\ mWrites # <<>>, "C04:write-without-recording")
         \* ---------------- C02 / C01 at a successful start
         \cup If(clean /\ startOk /\ mWrites # want, "C02:pre-trigger-frames")
